@@ -148,9 +148,13 @@ func hiddenFalseEdges(fn *ssa.Function, argOK func(ssa.Value) bool) (map[edge]bo
 	return e, descs
 }
 
-func c02R2(h H) {
+func c02R2(h H) { c02HiddenRule(h, "R2") }
+
+// c02HiddenRule registers the hidden-file obligations under the given rule id (C02 R2; C03 uses the same obligations
+// for paths made internal, which the internal directive puts on the hide list).
+func c02HiddenRule(h H, rule string) {
 	r := h.r
-	r.Rule("R2", "hidden-file typestate: in package staticfiles every jailed Open whose file is handed to any call other than its own Close/Stat/Readdir/Seek (a content sink such as http.ServeContent) has an IsHidden test on a FileInfo derived from that same Open, and either the sink, or every control-flow edge on which that file becomes the one served, is reachable only through the test's false edge; in browse, listing entries and archive members are produced only on the false edge of IsHidden applied to the entry itself", 5)
+	r.Rule(rule, "hidden-file typestate: in package staticfiles every jailed Open whose file is handed to any call other than its own Close/Stat/Readdir/Seek (a content sink such as http.ServeContent) has an IsHidden test on a FileInfo derived from that same Open, and either the sink, or every control-flow edge on which that file becomes the one served, is reachable only through the test's false edge; in browse, listing entries and archive members are produced only on the false edge of IsHidden applied to the entry itself", 5)
 	// --- staticfiles: generic
 	sinkCount := 0
 	for _, fn := range h.p.PkgFuncs(sfPkg) {
@@ -191,16 +195,16 @@ func c02R2(h H) {
 						continue
 					}
 					sinkCount++
-					checkHiddenGuard(h, fn, in, a, o.call, o.file)
+					checkHiddenGuard(h, rule, fn, in, a, o.call, o.file)
 				}
 			}
 		})
 	}
 	if sinkCount < 3 {
-		r.Unresolve("R2", sprintf("staticfiles: only %d (open → sink) flows found; expected the main file, the index page and the precompressed sibling reaching http.ServeContent", sinkCount))
+		r.Unresolve(rule, sprintf("staticfiles: only %d (open → sink) flows found; expected the main file, the index page and the precompressed sibling reaching http.ServeContent", sinkCount))
 	}
 	// --- browse: listing entries
-	if fn := h.fn("R2", brPkg, "directoryListing"); fn != nil {
+	if fn := h.fn(rule, brPkg, "directoryListing"); fn != nil {
 		n := 0
 		allInstrs(fn, func(in ssa.Instruction) {
 			c, ok := in.(*ssa.Call)
@@ -216,11 +220,11 @@ func c02R2(h H) {
 				// same element: the appended entry is built from the very value that was tested
 				return derives(c.Call.Args[1], func(v ssa.Value) bool { return v == arg }, flowOpts{throughCalls: true})
 			})
-			r.Check(onlyVia(fn, c, edges), "R2", "browse.directoryListing/listing-entry", c.Pos(),
+			r.Check(onlyVia(fn, c, edges), rule, "browse.directoryListing/listing-entry", c.Pos(),
 				"a directory entry is listed only on the false edge of IsHidden applied to that entry", descs...)
 		})
 		if n == 0 {
-			r.Unresolve("R2", "browse.directoryListing: no append of browse.FileInfo found")
+			r.Unresolve(rule, "browse.directoryListing: no append of browse.FileInfo found")
 		}
 	}
 	// --- staticfiles: the same clause decided from what serveFile does (E10 file-server table)
@@ -230,13 +234,13 @@ func c02R2(h H) {
 		if fn := h.p.Func(sfPkg, "FileServer.serveFile"); fn != nil {
 			pos = fn.Pos()
 		}
-		r.Check(t.hidden == "" && t.other == "", "R2", "staticfiles.FileServer.serveFile/hidden-table", pos,
+		r.Check(t.hidden == "" && t.other == "", rule, "staticfiles.FileServer.serveFile/hidden-table", pos,
 			"evaluated against a modelled file system for every combination of hidden file, offered codings, existing and hidden siblings: a file on the hide list is never handed to http.ServeContent — not as the requested file (404) and not as its precompressed variant", sprintf("%d cases evaluated", t.cases), t.hidden, t.other)
-		r.Check(t.sibling == "" && t.other == "", "R2", "staticfiles.FileServer.serveFile/accepted-sibling-table", pos,
+		r.Check(t.sibling == "" && t.other == "", rule, "staticfiles.FileServer.serveFile/accepted-sibling-table", pos,
 			"in the same table: what is handed to http.ServeContent is the requested file or its precompressed sibling in a coding the client offered and did not refuse (q=0)", sprintf("%d cases evaluated", t.cases), t.sibling, t.other)
 	}
 	// --- browse: archive members
-	if fn := h.fn("R2", brPkg, "Browse.ServeArchive"); fn != nil {
+	if fn := h.fn(rule, brPkg, "Browse.ServeArchive"); fn != nil {
 		n := 0
 		for _, g := range withHelpers(fn, 3) {
 			allInstrs(g, func(in ssa.Instruction) {
@@ -249,12 +253,12 @@ func c02R2(h H) {
 					_, isParam := arg.(*ssa.Parameter)
 					return isParam && derives(c.Args[0], func(v ssa.Value) bool { return v == arg }, flowOpts{throughCalls: true})
 				})
-				r.Check(onlyVia(g, in, edges), "R2", shortFunc(g)+"/archive-member", in.Pos(),
+				r.Check(onlyVia(g, in, edges), rule, shortFunc(g)+"/archive-member", in.Pos(),
 					"a file is written to the archive only on the false edge of IsHidden applied to the walked entry's own FileInfo", descs...)
 			})
 		}
 		if n == 0 {
-			r.Unresolve("R2", "browse.ServeArchive: no archiver.Writer.Write invoke found")
+			r.Unresolve(rule, "browse.ServeArchive: no archiver.Writer.Write invoke found")
 		}
 	}
 }
@@ -319,7 +323,7 @@ func isConstLike(v ssa.Value) bool {
 	return ok
 }
 
-func checkHiddenGuard(h H, fn *ssa.Function, sink ssa.Instruction, arg ssa.Value, open *ssa.Call, file ssa.Value) {
+func checkHiddenGuard(h H, rule string, fn *ssa.Function, sink ssa.Instruction, arg ssa.Value, open *ssa.Call, file ssa.Value) {
 	r := h.r
 	construct := shortFunc(fn) + "/open:" + openKind(open.Call.Args[0]) + "→" + shortCallee(sink)
 	fromOpen := func(x ssa.Value) bool {
@@ -327,11 +331,11 @@ func checkHiddenGuard(h H, fn *ssa.Function, sink ssa.Instruction, arg ssa.Value
 	}
 	edges, descs := hiddenFalseEdges(fn, fromOpen)
 	if len(edges) == 0 {
-		r.Fail("R2", construct, sink.Pos(), "the file opened at "+h.p.Pos(open.Pos())+" reaches this sink but no IsHidden test is applied to a FileInfo of that file")
+		r.Fail(rule, construct, sink.Pos(), "the file opened at "+h.p.Pos(open.Pos())+" reaches this sink but no IsHidden test is applied to a FileInfo of that file")
 		return
 	}
 	if onlyVia(fn, sink, edges) {
-		r.Hold("R2", construct, sink.Pos(), "sink reachable only through the not-hidden edge of IsHidden on this file's FileInfo", descs...)
+		r.Hold(rule, construct, sink.Pos(), "sink reachable only through the not-hidden edge of IsHidden on this file's FileInfo", descs...)
 		return
 	}
 	// otherwise every φ edge on which this open's file enters the flow to the sink must be guarded
@@ -366,10 +370,10 @@ func checkHiddenGuard(h H, fn *ssa.Function, sink ssa.Instruction, arg ssa.Value
 	}
 	walk(arg)
 	if found && okAll {
-		r.Hold("R2", construct, sink.Pos(), "every edge on which this file becomes the one handed to the sink lies behind the not-hidden edge of IsHidden on its FileInfo", descs...)
+		r.Hold(rule, construct, sink.Pos(), "every edge on which this file becomes the one handed to the sink lies behind the not-hidden edge of IsHidden on its FileInfo", descs...)
 		return
 	}
-	r.Fail("R2", construct, sink.Pos(), "the file opened at "+h.p.Pos(open.Pos())+" can reach this sink on a path that does not pass the not-hidden edge of IsHidden on its own FileInfo", descs...)
+	r.Fail(rule, construct, sink.Pos(), "the file opened at "+h.p.Pos(open.Pos())+" can reach this sink on a path that does not pass the not-hidden edge of IsHidden on its own FileInfo", descs...)
 }
 
 func stripIface(v ssa.Value) ssa.Value {
